@@ -188,6 +188,15 @@ def var(*ts):
     return _merge("nop::Variant<%s>" % ", ".join(t.cpp for t in ts), "Variant<%s>" % ",".join(t.name for t in ts), list(ts)).shaped("var", list(ts))
 
 
+def bigvar(n=130):
+    """Variant with more than 128 alternatives: the element index leaves the positive-fixint class (documented as INT32, minimal class)"""
+    text = ("template <int I> struct VAlt { std::uint8_t v{}; NOP_VALUE(VAlt, v); };\nusing Variant%d = nop::Variant<%s>;" % (n, ", ".join("VAlt<%d>" % i for i in range(n))))
+    reflect = ("template <int I> struct Reflect<VAlt<I>> {\n  static Sch schema() { return SchemaOf<std::uint8_t>(); }\n  static Val to(const VAlt<I>& x) { return ToVal(x.v); }\n"
+               "  static void from(const Val& v, VAlt<I>* x) { FromVal(v, &x->v); }\n};")
+    t = Ty("Variant%d" % n, "Variant%d" % n, 0, decls=[Decl("Variant%d" % n, text, reflect)])
+    return t.shaped("var", [prim("u8")] * n)
+
+
 def refw(t):
     r = _merge("std::reference_wrapper<%s>" % t.cpp, "reference_wrapper<%s>" % t.name, [t])
     r.nil_lead, r.err_lead = t.nil_lead, t.err_lead
@@ -398,6 +407,9 @@ def curated():
     A(res(enum("u8"), P("string"))); A(res(enum("i32"), P("u32"))); A(res(enum("i16"), vec(P("string"))))
     A(var(P("i32"))); A(var(P("i32"), P("string"), vec(P("u8")))); A(var(P("float"), P("u64"), P("string"), opt(P("i8")), pair(P("u8"), P("u8"))))
     A(var(P("u8"), P("u16")))
+    A(bigvar(130))
+    # integral arrays whose payload is large in bytes (multi-byte elements, > 256 bytes) and a C array member of that kind
+    A(arr(P("u32"), 200)); A(arr(P("i16"), 300)); A(struct([Member(P("u64"), 40), Member(P("u8"))], "SBigCArr"))
     A(opt(opt(P("i32")))); A(res(enum("u8"), res(enum("i32"), P("u8"))))   # format-ambiguous nestings (known limits of the format)
     A(handle()); A(vec(handle())); A(opt(handle())); A(handle("A"))
     # structures
